@@ -285,8 +285,14 @@ def position (r : Reader) : Option (Nat × Nat) :=
 def seek (r : Reader) (toLine toByte : Nat) : Reader × Res Unit :=
   let pos : Int := (r.bp.start : Int) + ((toByte : Int) - (r.byte : Int))
   if 0 ≤ pos ∧ pos < (r.br.buf.length : Int) then
-    ({ r with line := toLine, byte := toByte, state := .positioned, searchPos := pos.toNat,
-              bp := { start := pos.toNat, seqPos := [] } }, .ok ())
+    -- a partly filled buffer (an earlier read failed) is completed first
+    let filled : BufRd × Except IoKind Nat :=
+      if r.br.buf.length < r.br.cap then fillBuf r.br else (r.br, .ok 0)
+    match filled with
+    | (br, .error k) => ({ r with br := br }, .err (.io k))
+    | (br, .ok _) =>
+      ({ r with br := br, line := toLine, byte := toByte, state := .positioned, searchPos := pos.toNat,
+                bp := { start := pos.toNat, seqPos := [] } }, .ok ())
   else
     match r.br.seek toByte with
     | (br, some k) => ({ r with br := br }, .err (.io k))
